@@ -410,6 +410,16 @@ func (w *World) parseBlocks(ls []rawLine, pkgPath string) error {
 					w.FieldRanges = map[string]FieldRange{}
 				}
 				w.FieldRanges[f[0]] = FieldRange{Lo: f[2], Hi: f[3], File: l.file, Line: l.line}
+			case "mapsum":
+				// mapsum <name> <weight spec function> <map type as printed by go/types>
+				f := strings.SplitN(rest, " ", 3)
+				if len(f) != 3 {
+					return fail("expected: mapsum <name> <weight spec> <map type>")
+				}
+				if w.MapSums == nil {
+					w.MapSums = map[string]MapSum{}
+				}
+				w.MapSums[strings.TrimSpace(f[2])] = MapSum{Name: f[0], Weight: f[1], File: l.file, Line: l.line}
 			case "spec":
 				name, params, result, body, err := parseSig(rest)
 				if err != nil {
